@@ -427,6 +427,55 @@ def run(prog, rep):
                                       f'the elements remembered from the interface-link-interface trace are the starting points of the owner traces '
                                       f'(service and its owner); hop {idx_} of {prs} is a {lab}, so the peer interface\'s service and owner are never '
                                       f'traced and are deleted from the partition')
+    # the peers remembered by the interface-link-interface trace are starting points of the owner traces: the collection
+    # an owner trace iterates is, whenever that loop is entered, already extended by the remembered peers
+    remembered = set()
+    for c in walk_no_nested(ga):
+        if isinstance(c, ast.Call) and isinstance(c.func, ast.Attribute) and c.func.attr == 'add' and isinstance(c.func.value, ast.Name) and c.args and \
+                isinstance(c.args[0], ast.Subscript) and isinstance(c.args[0].value, ast.Name):
+            for l in [p_ for p_ in _ancestors(c, ga) if isinstance(p_, ast.For) and isinstance(p_.target, ast.Name) and p_.target.id == c.args[0].value.id]:
+                it = l.iter
+                if isinstance(it, ast.Name):
+                    defs = [a for a in walk_no_nested(ga) if isinstance(a, ast.Assign) and any(isinstance(t, ast.Name) and t.id == it.id for t in a.targets)
+                            and a.lineno <= l.lineno]
+                    it = defs[-1].value if defs else it
+                if isinstance(it, ast.Call) and call_name(it) == 'get_first_and_second_neighbor' and \
+                        tuple(schema.pairs_of_call(it, arm))[:1] == (('connects', 'Link'),):
+                    remembered.add(c.func.value.id)
+    if remembered:
+        tcfg = CFG(ga)
+        tdom = tcfg.dominators()
+        owner_loops = []
+        for c in traces:
+            if tuple(schema.pairs_of_call(c, arm))[:1] == (('connects', 'NetworkService'),):
+                fl = [p_ for p_ in _ancestors(c, ga) if isinstance(p_, ast.For)]
+                # the loop whose element the trace starts from
+                start = kwarg(c, 'node_id') or (c.args[0] if c.args else None)
+                for l in fl:
+                    if isinstance(start, ast.Name) and isinstance(l.target, ast.Name) and l.target.id == start.id and not any(l is x for x in owner_loops):
+                        owner_loops.append(l)
+        for l in owner_loops:
+            names_in_iter = {x.id for x in ast.walk(l.iter) if isinstance(x, ast.Name)}
+            heads = [x for x in tcfg.nodes if x.ast is l and x.kind == 'test']
+            ok_ = bool(names_in_iter & remembered)
+            for st in walk_no_nested(ga):
+                merged = None
+                if isinstance(st, ast.Expr) and isinstance(st.value, ast.Call) and isinstance(st.value.func, ast.Attribute) and \
+                        st.value.func.attr == 'update' and isinstance(st.value.func.value, ast.Name):
+                    merged = (st.value.func.value.id, {x.id for a_ in st.value.args for x in ast.walk(a_) if isinstance(x, ast.Name)})
+                elif isinstance(st, ast.AugAssign) and isinstance(st.op, ast.BitOr) and isinstance(st.target, ast.Name):
+                    merged = (st.target.id, {x.id for x in ast.walk(st.value) if isinstance(x, ast.Name)})
+                elif isinstance(st, ast.Assign) and len(st.targets) == 1 and isinstance(st.targets[0], ast.Name):
+                    merged = (st.targets[0].id, {x.id for x in ast.walk(st.value) if isinstance(x, ast.Name)})
+                if merged and merged[0] in names_in_iter and merged[1] & remembered:
+                    sn = [x for x in tcfg.nodes if x.ast is st]
+                    if sn and heads and sn[0].id in tdom.get(heads[0].id, set()):
+                        ok_ = True
+            rep.instance('R4', f'generate_adms: owner traces start from `{norm(l.iter, 40)}`, extended by the remembered peers {sorted(remembered)} before the loop: {ok_}')
+            if not ok_:
+                rep.violation('R4', loc(mod, l), 'ABCARMPropertyGraph.generate_adms', f'owner traces over `{norm(l.iter, 40)}` start before the peers are merged in',
+                              f'the peers found over links ({sorted(remembered)}) are not part of `{norm(l.iter, 40)}` when the service / owner traces run: '
+                              f'a link peer is kept without its owning service and that service\'s owner')
     # every trace result reaches the keep set: directly, or through a local collection that is then added to it
     def _alias_root(nm):
         for _ in range(4):
@@ -639,6 +688,8 @@ MUTANTS = [
     {'name': 'catalogued-entries-replaced-by-none', 'file': AF, 'rule': 'R2',
      'find': "                    else:\n                        ds = delegations_by_node[node][atype].return_delegations_for_id(del_id)",
      'replace': "                    else:\n                        ds = delegations_by_node[node][atype].return_delegations_for_id(del_id)\n                        if not ds:\n                            ds = None"},
+    {'name': 'peers-merged-after-owner-traces', 'file': AF, 'rule': 'R4',
+     'find': "            keep_cps.update(new_cps)\n", 'replace': "            pass\n"},
     {'name': 'rekey-rebuilds-entry-under-old-key', 'file': 'fim/graph/resources/abc_adm.py', 'rule': 'R6',
      'find': '                    delegations.delegations[delegation.delegation_id] = delegations.delegations.pop(del_id)', 'replace': '                    delegations.delegations[del_id] = delegation'},
 ]
